@@ -1,5 +1,5 @@
 """Per-property policy: which rules decide which clause, floors, scope, wording for the evidence."""
-from . import rules_conv, rules_table, rules_codec, rules_layout, rules_effect, rules_path, rules_reply, rules_cow, rules_node, rules_ref, rules_ident, rules_traits
+from . import rules_conv, rules_table, rules_codec, rules_layout, rules_effect, rules_path, rules_reply, rules_cow, rules_node, rules_ref, rules_ident, rules_traits, rules_event
 
 import json, os
 
@@ -322,6 +322,24 @@ PROPS = {
             {"run": rules_path.run_objsize, "floor": 2, "use_anchor_files": True},
             {"run": rules_path.run_statuspolarity, "floor": 2, "use_anchor_files": True},
             {"run": rules_layout.run_convdest, "floor": 60, "scope": "anchors"},
+            {"run": rules_path.run_nullcontra, "floor": 10, "use_anchor_files": True},
+            {"run": rules_path.run_uaf, "floor": 1, "use_anchor_files": True},
+        ],
+    },
+    "C11": {
+        "explanation": "FINALISER: typestate per handler slot (records holding a two-argument function pointer `cmd` next to `arg`), ghost facts notified/empty/fresh carried as trace "
+                       "partitions: every store to a slot's handler in the dispatcher files happens after handler(arg, NULL) ran on that path, after a test showed the slot empty, "
+                       "on a slot just obtained from mpt_command_empty()/a fresh insert, or in an initialiser; mpt_command_find() returns occupied slots only (an emptied slot can "
+                       "never be invoked); mpt_command_clear() and the traits finaliser notify before dropping slots. IDWIDTH (shared with C12) bounds reserved request ids.",
+        "not_decided": "delivery to exactly the registered handler over histories, default-event bookkeeping, uniqueness of reserved ids beyond the width table",
+        "assumptions": [],
+        "technique": "CFG typestate with trace partitioning over all handler-slot stores + dominator check of the lookup",
+        "level_text": "Decides the end-of-life clause ('every handler ever registered receives exactly one end-of-life notification before its slot is reused and is never looked up "
+                      "afterwards') for every store in the dispatcher sources, on all paths.",
+        "level_note": "one-shot reply handlers in the stream/connection wait queues (invoked with the reply, then cleared) are outside the anchored files and reported as unattributed",
+        "rules": [
+            {"run": rules_event.run_finaliser, "floor": 10, "scope": "anchors"},
+            {"run": rules_reply.run_idwidth, "floor": 8},
             {"run": rules_path.run_nullcontra, "floor": 10, "use_anchor_files": True},
             {"run": rules_path.run_uaf, "floor": 1, "use_anchor_files": True},
         ],
